@@ -167,6 +167,67 @@ def searchFrom (r : Re) : Bytes → Bytes → Bool
 /-- Unanchored `regexp.MatchString`. -/
 def search (r : Re) (u : Bytes) : Bool := searchFrom r [] u
 
+/-! ### A polynomial matcher: sets of cursor states
+
+  `Re.m` backtracks and is exponential on expressions like `(.+|x)+y`.  The driver therefore evaluates
+  `searchFast`, which pushes a SET of cursor states through the expression (`adv`), with `*` as a
+  closure iteration; `UF/Proofs/RegexFast.lean` proves `mem_adv : t ∈ r.adv S ↔ ∃ s ∈ S, Den r s t` and
+  `searchFast_eq : searchFast r u = search r u`. -/
+
+def addSt (t : St) (acc : List St) : List St := if acc.contains t then acc else t :: acc
+
+/-- union without new duplicates -/
+def unionSt (a b : List St) : List St := a.foldl (fun acc t => addSt t acc) b
+
+def stepSingle (p : UInt8 → Bool) (s : St) : Option St :=
+  match s.post with
+  | [] => none
+  | b :: post => if p b then some ⟨b :: s.pre, post⟩ else none
+
+def maxPost (S : List St) : Nat := S.foldl (fun m s => max m s.post.length) 0
+
+/-- closure of `S` under `f`; stops as soon as a round adds nothing. -/
+def starAdv (f : List St → List St) : Nat → List St → List St
+  | 0, S => S
+  | n + 1, S => if (f S).all (fun t => S.contains t) then S else starAdv f n (unionSt (f S) S)
+
+def iterAdv (f : List St → List St) : Nat → List St → List St
+  | 0, S => S
+  | n + 1, S => iterAdv f n (f S)
+
+def iterBAdv (f : List St → List St) : Nat → Nat → List St → List St
+  | 0, 0, S => S
+  | 0, n + 1, S => unionSt S (iterBAdv f 0 n (f S))
+  | m + 1, n + 1, S => iterBAdv f m n (f S)
+  | _ + 1, 0, _ => []
+
+/-- All states reachable from a state of `S` through `r`. -/
+def adv : Re → List St → List St
+  | .empty, S => S
+  | .lit bs fold, S => S.filterMap (litStep fold bs)
+  | .any, S => S.filterMap (stepSingle fun b => b != 10)
+  | .anyNL, S => S.filterMap (stepSingle fun _ => true)
+  | .cls neg rs fold, S => S.filterMap (stepSingle (clsMatch neg rs fold))
+  | .bol, S => S.filter fun s => s.pre.isEmpty
+  | .eol, S => S.filter fun s => s.post.isEmpty
+  | .wordB, S => S.filter atWordB
+  | .nwordB, S => S.filter fun s => !atWordB s
+  | .cat a b, S => b.adv (a.adv S)
+  | .alt a b, S => unionSt (a.adv S) (b.adv S)
+  | .star a, S => starAdv a.adv (maxPost S) S
+  | .plus a, S => let S' := a.adv S; starAdv a.adv (maxPost S') S'
+  | .quest a, S => unionSt S (a.adv S)
+  | .rep a m none, S => let S' := iterAdv a.adv m S; starAdv a.adv (maxPost S') S'
+  | .rep a m (some n), S => iterBAdv a.adv m n S
+  | .grp a, S => a.adv S
+
+def allStatesFrom : Bytes → Bytes → List St
+  | pre, [] => [⟨pre, []⟩]
+  | pre, b :: post => ⟨pre, b :: post⟩ :: allStatesFrom (b :: pre) post
+
+/-- `search`, computed in polynomial time. -/
+def searchFast (r : Re) (u : Bytes) : Bool := !(r.adv (allStatesFrom [] u)).isEmpty
+
 /-- `(?i)`: set the fold flag on every literal and class. -/
 def foldCase : Re → Re
   | .lit bs _ => .lit bs true
